@@ -37,7 +37,7 @@ theorem reads_of_cell (m : Mach) (st : Store) (v : Val) (hcell : st.cell = some 
   refine ⟨hcell, s, hlt, hval, by simp [currentState, hcell, hs], fun s' => ?_⟩
   simp only [isActive, currentState, hcell, hs]
   congr 1
-  exact Bool.eq_iff_iff.mpr ⟨fun h => by simpa using Eq.symm (by simpa using h), fun h => by simpa using Eq.symm (by simpa using h)⟩
+  exact Bool.eq_iff_iff.mpr ⟨fun h => by simpa using (beq_iff_eq.mp h).symm, fun h => by simpa using (beq_iff_eq.mp h).symm⟩
 
 /-- If the cell holds nothing or an undeclared value, every reader that needs a state raises
 `InvalidStateValue`. -/
